@@ -155,7 +155,7 @@ class Geometry:
     @property
     def total_thickness(self) -> float:
         """Get Thickness of detector."""
-        if self._total_thickness:
+        if self._total_thickness is not None:
             return self._total_thickness
         else:
             raise ValueError("'total_thickness' not specified in detector geometry.")
@@ -171,7 +171,7 @@ class Geometry:
     @property
     def pixel_vert_size(self) -> float:
         """Get Vertical dimension of pixel."""
-        if self._pixel_vert_size:
+        if self._pixel_vert_size is not None:
             return self._pixel_vert_size
         else:
             raise ValueError("'pixel_vert_size' not specified in detector geometry.")
@@ -187,7 +187,7 @@ class Geometry:
     @property
     def pixel_horz_size(self) -> float:
         """Get Horizontal dimension of pixel."""
-        if self._pixel_horz_size:
+        if self._pixel_horz_size is not None:
             return self._pixel_horz_size
         else:
             raise ValueError("'pixel_horz_size' not specified in detector geometry.")
